@@ -7,6 +7,8 @@ import (
 	"testing"
 	"testing/synctest"
 
+	"github.com/irai/packet"
+
 	"verif/harness/mon"
 	"verif/harness/wk"
 )
@@ -49,5 +51,22 @@ func runBubble(c *wk.Ctx, idx int64, f func()) {
 			panic(rec)
 		}
 		c.ViolP("C09", "bubble:"+strings.SplitN(pi.Value, ":", 2)[0], pi.Value, map[string]any{"index": idx})
+	}
+}
+
+// rxBuf models the read loop's single receive buffer (buf := make([]byte, EthMaxSize); n, _ := ReadFrom(buf); Parse(buf[:n]); ...):
+// every frame a workload delivers is copied into it before Parse, and when the step is over the buffer is overwritten, as the
+// next ReadFrom would do. Whatever the library keeps from a packet must not live in this buffer.
+type rxBuf struct{ b []byte }
+
+func newRx() *rxBuf { return &rxBuf{b: make([]byte, packet.EthMaxSize)} }
+
+// load copies a frame into the buffer and returns the slice to parse; the rest of the buffer keeps the previous frame's bytes.
+func (r *rxBuf) load(f []byte) []byte { return r.b[:copy(r.b, f)] }
+
+// scribble overwrites the whole buffer.
+func (r *rxBuf) scribble() {
+	for i := range r.b {
+		r.b[i] = 0xa5
 	}
 }
